@@ -158,7 +158,7 @@ def variant_text(v):
     return "\n".join(lines)
 
 
-def enum_item_text(spec, cfg, derive_path="EnumTools", with_tools=True, extra_derives=""):
+def enum_item_text(spec, cfg, derive_path="EnumTools", with_tools=True, extra_derives="", only_tools=False):
     """The enum item with its derive and attributes."""
     ident = spec.get("ident", "E")
     lines = []
@@ -167,6 +167,8 @@ def enum_item_text(spec, cfg, derive_path="EnumTools", with_tools=True, extra_de
         derives += ", " + extra_derives
     if with_tools:
         derives += ", " + derive_path
+    if only_tools:
+        derives = derive_path
     lines.append("    #[derive(%s)]" % derives)
     attrs = config_attr_texts(cfg) if with_tools else []
     for p, t in attrs:
